@@ -1,4 +1,5 @@
 import RF.Model.MacroFmt
+import RF.Lemmas.CharClasses
 /-!
 Helper lemmas for `RF/Props/MacroFmt.lean`.
 
@@ -503,5 +504,487 @@ theorem parse_toks {ts : List TT} {args : List Arg} (hok : okList ts = true)
     have ⟨hg, hinv⟩ := parseList_inv ts {} s hok good_init hs
     rw [finish_inv hg h, hinv]
     simp [PState.pending]
+
+
+/-! ## Part 2: `str::replace` as a scan, and the undoing loop over a segmented text -/
+
+theorem isPrefix_append_right {p s : List Char} (x : List Char) (h : isPrefix p s = true) :
+    isPrefix p (s ++ x) = true := by
+  induction p generalizing s with
+  | nil => simp [isPrefix]
+  | cons a as ih =>
+    cases s with
+    | nil => simp [isPrefix] at h
+    | cons c cs =>
+      simp [isPrefix] at h ⊢
+      exact ⟨h.1, ih h.2⟩
+
+theorem isPrefix_split {p s : List Char} (h : isPrefix p s = true) : ∃ t, s = p ++ t := by
+  induction p generalizing s with
+  | nil => exact ⟨s, rfl⟩
+  | cons a as ih =>
+    cases s with
+    | nil => simp [isPrefix] at h
+    | cons c cs =>
+      simp [isPrefix] at h
+      obtain ⟨t, rfl⟩ := ih h.2
+      exact ⟨t, by simp [h.1]⟩
+
+/-- `x` is `y`, or a `$` that took its place. -/
+def Rel (x y : Char) : Prop := x = y ∨ x = '$'
+
+/-- `Rel` character by character. -/
+inductive RelL : List Char → List Char → Prop where
+  | nil : RelL [] []
+  | cons {x y : Char} {xs ys : List Char} : Rel x y → RelL xs ys → RelL (x :: xs) (y :: ys)
+
+theorem rel_refl (xs : List Char) : RelL xs xs := by
+  induction xs with
+  | nil => exact .nil
+  | cons x xs ih => exact .cons (Or.inl rfl) ih
+
+theorem relL_append {a b c d : List Char} (h1 : RelL a b) (h2 : RelL c d) : RelL (a ++ c) (b ++ d) := by
+  induction h1 with
+  | nil => simpa using h2
+  | cons h _ ih => exact .cons h ih
+
+/-- A pattern without `$` that occurs in a text where some characters were overwritten by `$`
+occurs in the original text. -/
+theorem isPrefix_mono {P xs ys : List Char} (hP : '$' ∉ P) (h : RelL xs ys)
+    (hp : isPrefix P xs = true) : isPrefix P ys = true := by
+  induction P generalizing xs ys with
+  | nil => simp [isPrefix]
+  | cons p ps ih =>
+    cases h with
+    | nil => simp [isPrefix] at hp
+    | cons hxy hrest =>
+      simp [isPrefix] at hp ⊢
+      simp at hP
+      refine ⟨?_, ih hP.2 hrest hp.2⟩
+      rcases hxy with rfl | rfl
+      · exact hp.1
+      · exact absurd hp.1.symm (by simpa using hP.1)
+
+theorem noOcc_mono {P reg reg' rest rest' : List Char} (hP : '$' ∉ P)
+    (h1 : RelL reg reg') (h2 : RelL rest rest')
+    (h : noOcc P reg' rest' = true) : noOcc P reg rest = true := by
+  induction h1 with
+  | nil => simp [noOcc]
+  | @cons a b as bs hab has ih =>
+    simp [noOcc] at h ⊢
+    refine ⟨?_, ih h.2⟩
+    cases hp : isPrefix P (a :: (as ++ rest)) with
+    | false => rfl
+    | true =>
+      have := isPrefix_mono hP (.cons hab (relL_append has h2)) hp
+      simp [this] at h
+
+theorem noOcc_suffix {P a b rest : List Char} (h : noOcc P (a ++ b) rest = true) :
+    noOcc P b rest = true := by
+  induction a with
+  | nil => simpa using h
+  | cons x xs ih =>
+    simp [noOcc] at h
+    exact ih h.2
+
+theorem replaceGo_noOcc {P R reg rest : List Char} (h : noOcc P reg rest = true) :
+    replaceGo P R 0 (reg ++ rest) = reg ++ replaceGo P R 0 rest := by
+  induction reg with
+  | nil => simp
+  | cons c cs ih =>
+    simp [noOcc] at h
+    simp [replaceGo, h.1, ih h.2]
+
+theorem replaceGo_skip (P R : List Char) (xs rest : List Char) :
+    replaceGo P R xs.length (xs ++ rest) = replaceGo P R 0 rest := by
+  induction xs with
+  | nil => simp
+  | cons x xs ih => simp [replaceGo, ih]
+
+theorem flatD_rel (D : List Char → Bool) (segs : List Seg) :
+    RelL (flatD D segs) (flatZ segs) := by
+  induction segs with
+  | nil => exact .nil
+  | cons s ss ih =>
+    cases s with
+    | lit c => exact .cons (Or.inl rfl) ih
+    | var k name =>
+      simp only [flatD, Seg.flat]
+      refine relL_append (relL_append (rel_refl _) ?_) ih
+      refine .cons ?_ (rel_refl _)
+      cases D name
+      · exact Or.inl rfl
+      · exact Or.inr rfl
+
+theorem isPrefix_self (l : List Char) : isPrefix l l = true := by
+  induction l with
+  | nil => rfl
+  | cons a as ih => simp [isPrefix, ih]
+
+theorem undo_step (n : List Char) (hn : '$' ∉ n) (D : List Char → Bool) :
+    ∀ (segs : List Seg), singles segs = true → safeFor n segs = true →
+      replaceGo ('z' :: n) ('$' :: n) 0 (flatD D segs) = flatD (fun m => D m || isPrefix n m) segs
+  | [], _, _ => by simp [flatD, replaceGo]
+  | .lit c :: tl, hs, hsafe => by
+    simp [safeFor] at hsafe
+    simp only [singles] at hs
+    have hP : '$' ∉ 'z' :: n := by simp [hn]
+    have hno : isPrefix ('z' :: n) (c :: flatD D tl) = false := by
+      cases hp : isPrefix ('z' :: n) (c :: flatD D tl) with
+      | false => rfl
+      | true =>
+        have := isPrefix_mono hP (RelL.cons (Or.inl rfl) (flatD_rel D tl)) hp
+        simp [this] at hsafe
+    have ih := undo_step n hn D tl hs hsafe.2
+    simp only [flatD, Seg.flat, List.singleton_append]
+    rw [replaceGo, hno]
+    simp [ih]
+  | .var k m :: tl, hs, hsafe => by
+    simp [safeFor] at hsafe
+    simp [singles] at hs
+    obtain ⟨hk, hs⟩ := hs
+    subst hk
+    have hP : '$' ∉ 'z' :: n := by simp [hn]
+    have ih := undo_step n hn D tl hs hsafe.2
+    have hnoD : noOcc ('z' :: n) m (flatD D tl) = true :=
+      noOcc_mono hP (rel_refl m) (flatD_rel D tl) hsafe.1.2
+    simp only [flatD, Seg.flat, Nat.sub_self, List.replicate_zero, List.nil_append]
+    by_cases hD : D m = true
+    · simp only [hD, Bool.true_or, ite_true, List.cons_append]
+      rw [replaceGo]
+      simp only [isPrefix]
+      simp [replaceGo_noOcc hnoD, ih]
+    · have hD' : D m = false := by simpa using hD
+      by_cases hpre : isPrefix n m = true
+      · obtain ⟨m', rfl⟩ := isPrefix_split hpre
+        simp only [hD', Bool.false_or, hpre, ite_true, List.cons_append, Bool.false_eq_true, ite_false]
+        rw [replaceGo]
+        have : isPrefix ('z' :: n) ('z' :: (n ++ m' ++ flatD D tl)) = true := by
+          simp [isPrefix]
+          exact isPrefix_append_right _ (isPrefix_self n)
+        rw [this]
+        simp only [ite_true, List.length_cons, Nat.add_sub_cancel, List.cons_append, List.append_assoc]
+        rw [replaceGo_skip, replaceGo_noOcc (noOcc_suffix hnoD), ih]
+      · have hpre' : isPrefix n m = false := by simpa using hpre
+        simp only [hD', Bool.false_or, hpre', Bool.false_eq_true, ite_false, List.cons_append]
+        have hno : isPrefix ('z' :: n) ('z' :: (m ++ flatD D tl)) = false := by
+          cases hp : isPrefix ('z' :: n) ('z' :: (m ++ flatD D tl)) with
+          | false => rfl
+          | true =>
+            have := isPrefix_mono hP
+              (RelL.cons (Or.inl rfl) (relL_append (rel_refl m) (flatD_rel D tl))) hp
+            simp [hpre'] at hsafe
+            simp [this] at hsafe
+        rw [replaceGo, hno]
+        simp [replaceGo_noOcc hnoD, ih]
+
+
+theorem flatD_congr {D D' : List Char → Bool} :
+    ∀ (segs : List Seg), (∀ k m, Seg.var k m ∈ segs → D m = D' m) → flatD D segs = flatD D' segs
+  | [], _ => rfl
+  | .lit c :: tl, h => by
+    simp only [flatD, Seg.flat]
+    rw [flatD_congr tl (fun k m hm => h k m (List.mem_cons_of_mem _ hm))]
+  | .var k m :: tl, h => by
+    simp only [flatD, Seg.flat]
+    rw [flatD_congr tl (fun k m hm => h k m (List.mem_cons_of_mem _ hm)), h k m (List.mem_cons_self)]
+
+/-- The undoing loop, in any order, on a text in which some names are already back: every name
+that begins with one of the names of `order` is back afterwards, nothing else changed. -/
+theorem undo_fold (oldBody : List Char) (segs : List Seg) (hs : singles segs = true) :
+    ∀ (order : List Subst) (D : List Char → Bool) (out : List Char),
+      (∀ e ∈ order, e.dollars = 1 ∧ '$' ∉ e.name ∧ safeFor e.name segs = true) →
+      undo oldBody order (flatD D segs) = some out →
+      out = flatD (fun m => D m || order.any (fun e => isPrefix e.name m)) segs
+  | [], D, out, _, h => by
+    simp [undo] at h
+    subst h
+    simp
+  | e :: rest, D, out, he, h => by
+    obtain ⟨hd, hn, hsafe⟩ := he e List.mem_cons_self
+    simp only [undo] at h
+    split at h
+    · cases h
+    · have hnew : e.new = 'z' :: e.name := by simp [Subst.new, hd]
+      have hold : e.old = '$' :: e.name := by simp [Subst.old, hd]
+      rw [hnew, hold] at h
+      have hstep : replaceAll ('z' :: e.name) ('$' :: e.name) (flatD D segs) =
+          flatD (fun m => D m || isPrefix e.name m) segs := by
+        simp only [replaceAll, List.isEmpty_cons, Bool.false_eq_true, ite_false]
+        exact undo_step e.name hn D segs hs hsafe
+      rw [hstep] at h
+      have := undo_fold oldBody segs hs rest _ out (fun x hx => he x (List.mem_cons_of_mem _ hx)) h
+      rw [this]
+      apply flatD_congr
+      intro k m _
+      simp [Bool.or_assoc]
+
+
+/-! ## `replace_names` as a segmentation of its input -/
+
+theorem flatD_append (D : List Char → Bool) (a b : List Seg) :
+    flatD D (a ++ b) = flatD D a ++ flatD D b := by
+  induction a with
+  | nil => rfl
+  | cons x xs ih => simp [flatD, ih]
+
+/-- white space erased -/
+abbrev nws (s : List Char) : List Char := s.filter (fun c => !RF.Comment.isWs c)
+
+/-- the part of the input read but not yet written: the `$`s and the name being collected -/
+def RState.pend (s : RState) : List Char := List.replicate s.dollarCount '$' ++ s.curName
+
+structure RState.wf (s : RState) : Prop where
+  zero : s.dollarCount = 0 → s.curName = []
+  name : '$' ∉ s.curName
+  substs : ∀ e ∈ s.substs, '$' ∉ e.name
+
+theorem isAlnum_dollar : isAlnum '$' = false := by decide
+
+theorem replicate_snoc (n : Nat) (c : Char) : List.replicate n c ++ [c] = List.replicate (n + 1) c := by
+  induction n with
+  | zero => rfl
+  | succ k ih => simp [List.replicate_succ, ih]
+
+theorem register_spec (s : RState) :
+    s.register.result = s.result ++ flatZ [.var s.dollarCount s.curName] ∧
+    (⟨s.dollarCount, s.curName⟩ : Subst) ∈ s.register.substs ∧
+    (∀ e ∈ s.substs, e ∈ s.register.substs) ∧
+    (∀ e ∈ s.register.substs, e ∈ s.substs ∨ e = ⟨s.dollarCount, s.curName⟩) ∧
+    s.register.dollarCount = s.dollarCount ∧ s.register.curName = s.curName := by
+  unfold RState.register
+  simp only
+  refine ⟨by simp [flatD, Seg.flat, Subst.new], ?_, ?_, ?_, by simp⟩
+  · split
+    · rename_i h
+      simpa using h
+    · simp
+  · intro e he
+    split
+    · exact he
+    · simp [he]
+  · intro e he
+    split at he
+    · exact Or.inl he
+    · simp at he
+      exact he
+
+theorem rstep_inv {s s' : RState} {kc : RF.CharClasses.Kind × Char} (hw : s.wf)
+    (h : rstep s kc = some s') :
+    s'.result = s.result ++ flatZ (stepSegs s kc) ∧
+    nws (s.pend ++ [kc.2]) = nws (flatS (stepSegs s kc) ++ s'.pend) ∧
+    s'.wf ∧
+    (∀ k m, Seg.var k m ∈ stepSegs s kc → (⟨k, m⟩ : Subst) ∈ s'.substs) ∧
+    (∀ e ∈ s.substs, e ∈ s'.substs) ∧
+    (∀ e ∈ s'.substs, e ∈ s.substs ∨ Seg.var e.dollars e.name ∈ stepSegs s kc) := by
+  obtain ⟨kind, c⟩ := kc
+  unfold rstep at h
+  unfold stepSegs
+  simp only at h ⊢
+  by_cases hk : (kind != RF.CharClasses.Kind.normal) = true
+  · simp only [hk, ite_true] at h ⊢
+    split at h
+    · cases h
+    · rename_i hd
+      have hd0 : s.dollarCount = 0 := by omega
+      injection h with h
+      subst h
+      refine ⟨by simp [flatD, Seg.flat], ?_, ⟨hw.zero, hw.name, hw.substs⟩, by simp, fun e he => he, fun e he => Or.inl he⟩
+      simp [RState.pend, hd0, hw.zero hd0, flatD, Seg.flat]
+  · simp only [hk, Bool.false_eq_true, ite_false] at h ⊢
+    by_cases hc : (c == '$') = true
+    · simp only [hc, ite_true] at h ⊢
+      split at h
+      · cases h
+      · rename_i hn
+        have hn' : s.curName = [] := by simpa using hn
+        injection h with h
+        subst h
+        refine ⟨by simp [flatD], ?_, ⟨by simp [hn'], hw.name, hw.substs⟩, by simp, fun e he => he, fun e he => Or.inl he⟩
+        have : c = '$' := by simpa using hc
+        subst this
+        simp [RState.pend, hn', flatD, replicate_snoc]
+    · simp only [hc, Bool.false_eq_true, ite_false] at h ⊢
+      have hc' : c ≠ '$' := by simpa using hc
+      by_cases hz : (s.dollarCount == 0) = true
+      · simp only [hz, ite_true] at h ⊢
+        have hd0 : s.dollarCount = 0 := by simpa using hz
+        injection h with h
+        subst h
+        refine ⟨by simp [flatD, Seg.flat], ?_, ⟨hw.zero, hw.name, hw.substs⟩, by simp, fun e he => he, fun e he => Or.inl he⟩
+        simp [RState.pend, hd0, hw.zero hd0, flatD, Seg.flat]
+      · simp only [hz, Bool.false_eq_true, ite_false] at h ⊢
+        have hdpos : 0 < s.dollarCount := by
+          have : s.dollarCount ≠ 0 := by simpa using hz
+          omega
+        by_cases ht : (!isAlnum c && !s.curName.isEmpty) = true
+        · simp only [ht, ite_true] at h ⊢
+          obtain ⟨hr, hin, hsub, hsub', hdc, hcn⟩ := register_spec s
+          injection h with h
+          subst h
+          refine ⟨?_, ?_, ⟨fun _ => rfl, by simp, ?_⟩, ?_, ?_, ?_⟩
+          · simp [hr, flatD, Seg.flat]
+          · have : List.replicate (s.dollarCount - 1) '$' ++ ['$'] = List.replicate s.dollarCount '$' := by
+              rw [replicate_snoc]
+              congr 1
+              omega
+            simp only [RState.pend, flatD, Seg.flat, ite_true, List.append_nil, List.replicate_zero,
+              List.nil_append]
+            rw [show List.replicate (s.dollarCount - 1) '$' ++ '$' :: s.curName ++ [c]
+                = (List.replicate (s.dollarCount - 1) '$' ++ ['$']) ++ s.curName ++ [c] by simp, this]
+          · intro e he
+            rcases hsub' e he with h1 | h1
+            · exact hw.substs e h1
+            · subst h1
+              exact hw.name
+          · intro k m hm
+            simp at hm
+            obtain ⟨rfl, rfl⟩ := hm
+            exact hin
+          · intro e he
+            exact hsub e he
+          · intro e he
+            rcases hsub' e he with h1 | h1
+            · exact Or.inl h1
+            · subst h1
+              exact Or.inr (by simp)
+        · simp only [ht, Bool.false_eq_true, ite_false] at h ⊢
+          split at h
+          · cases h
+          · split at h
+            · rename_i hpush
+              injection h with h
+              subst h
+              refine ⟨by simp [flatD], ?_, ⟨fun hd => by simp at hd; omega, ?_, hw.substs⟩, by simp, fun e he => he, fun e he => Or.inl he⟩
+              · simp [RState.pend, flatD]
+              · have hwn := hw.name
+                simp only [List.mem_append, List.mem_singleton, not_or]
+                exact ⟨hwn, fun heq => hc' heq.symm⟩
+            · split at h
+              · cases h
+              · rename_i hws
+                injection h with h
+                subst h
+                refine ⟨by simp [flatD], ?_, hw, by simp, fun e he => he, fun e he => Or.inl he⟩
+                have : RF.Comment.isWs c = true := by simpa using hws
+                simp [RState.pend, flatD, this]
+
+
+theorem flatS_append (a b : List Seg) : flatS (a ++ b) = flatS a ++ flatS b := flatD_append _ a b
+theorem flatZ_append (a b : List Seg) : flatZ (a ++ b) = flatZ a ++ flatZ b := flatD_append _ a b
+
+theorem nws_append (a b : List Char) : nws (a ++ b) = nws a ++ nws b := by simp [nws]
+
+theorem rloop_inv : ∀ (cls : List (RF.CharClasses.Kind × Char)) (s s' : RState), s.wf →
+    rloop s cls = some s' →
+    s'.result = s.result ++ flatZ (loopSegs s cls) ∧
+    nws (s.pend ++ cls.map (·.2)) = nws (flatS (loopSegs s cls) ++ s'.pend) ∧
+    s'.wf ∧
+    (∀ k m, Seg.var k m ∈ loopSegs s cls → (⟨k, m⟩ : Subst) ∈ s'.substs) ∧
+    (∀ e ∈ s.substs, e ∈ s'.substs) ∧
+    (∀ e ∈ s'.substs, e ∈ s.substs ∨ Seg.var e.dollars e.name ∈ loopSegs s cls)
+  | [], s, s', hw, h => by
+    simp [rloop] at h
+    subst h
+    simp [loopSegs, flatD, hw]
+  | kc :: rest, s, s', hw, h => by
+    simp only [rloop] at h
+    split at h
+    · cases h
+    · rename_i s1 h1
+      obtain ⟨r1, n1, w1, v1, m1, b1⟩ := rstep_inv hw h1
+      obtain ⟨r2, n2, w2, v2, m2, b2⟩ := rloop_inv rest s1 s' w1 h
+      simp only [loopSegs, h1]
+      refine ⟨by rw [r2, r1, flatZ_append]; simp, ?_, w2, ?_, fun e he => m2 e (m1 e he), ?_⟩
+      · have : s.pend ++ List.map (·.2) (kc :: rest) = (s.pend ++ [kc.2]) ++ rest.map (·.2) := by simp
+        rw [this, nws_append, n1, flatS_append]
+        have e1 : nws (flatS (stepSegs s kc) ++ s1.pend) ++ nws (List.map (·.2) rest)
+            = nws (flatS (stepSegs s kc)) ++ nws (s1.pend ++ List.map (·.2) rest) := by
+          simp [nws_append]
+        rw [e1, n2]
+        simp [nws_append]
+      · intro k m hm
+        simp only [List.mem_append] at hm
+        rcases hm with hm | hm
+        · exact m2 _ (v1 k m hm)
+        · exact v2 k m hm
+      · intro e he
+        rcases b2 e he with h2 | h2
+        · rcases b1 e h2 with h3 | h3
+          · exact Or.inl h3
+          · exact Or.inr (by simp [h3])
+        · exact Or.inr (by simp [h2])
+
+theorem wf_init : RState.wf {} := ⟨fun _ => rfl, by simp, by simp⟩
+
+/-- `replace_names` in terms of the segmentation of its input. -/
+theorem replaceNames_segs {input r : List Char} {substs : List Subst}
+    (h : replaceNames input = some (r, substs)) :
+    r = flatZ (segsOf input) ∧ nws input = nws (flatS (segsOf input)) ∧
+    (∀ k m, Seg.var k m ∈ segsOf input → (⟨k, m⟩ : Subst) ∈ substs) ∧
+    (∀ e ∈ substs, '$' ∉ e.name ∧ Seg.var e.dollars e.name ∈ segsOf input) := by
+  unfold replaceNames at h
+  unfold segsOf
+  cases hs : rloop {} (RF.CharClasses.classes input) with
+  | none => rw [hs] at h; cases h
+  | some s =>
+    rw [hs] at h
+    simp only at h ⊢
+    obtain ⟨r1, n1, w1, v1, _, b1⟩ := rloop_inv _ _ _ wf_init hs
+    have hin : List.map (·.2) (RF.CharClasses.classes input) = input :=
+      RF.Lemmas.CharClasses.classes_map_snd input
+    simp only [RState.pend, List.replicate_zero, List.nil_append, hin] at n1
+    by_cases hc : (!s.curName.isEmpty) = true
+    · simp only [hc, ite_true] at h ⊢
+      obtain ⟨hr, hin', hsub, hsub', _, _⟩ := register_spec s
+      injection h with h
+      injection h with h1 h2
+      subst h1 h2
+      have hne : s.curName ≠ [] := by simpa using hc
+      have hpos : 0 < s.dollarCount := by
+        rcases Nat.eq_zero_or_pos s.dollarCount with h0 | h0
+        · exact absurd (w1.zero h0) hne
+        · exact h0
+      refine ⟨by rw [hr, r1, flatZ_append]; simp, ?_, ?_, ?_⟩
+      · have e : flatS [Seg.var s.dollarCount s.curName] = List.replicate s.dollarCount '$' ++ s.curName := by
+          have : List.replicate (s.dollarCount - 1) '$' ++ ['$'] = List.replicate s.dollarCount '$' := by
+            rw [replicate_snoc]
+            congr 1
+            omega
+          simp only [flatD, Seg.flat, ite_true, List.append_nil]
+          rw [show List.replicate (s.dollarCount - 1) '$' ++ '$' :: s.curName
+              = (List.replicate (s.dollarCount - 1) '$' ++ ['$']) ++ s.curName by simp, this]
+        rw [n1, flatS_append, e]
+      · intro k m hm
+        simp only [List.mem_append, List.mem_singleton] at hm
+        rcases hm with hm | hm
+        · exact hsub _ (v1 k m hm)
+        · injection hm with hk hm'
+          subst hk hm'
+          exact hin'
+      · intro e he
+        rcases hsub' e he with h3 | h3
+        · refine ⟨w1.substs e h3, ?_⟩
+          rcases b1 e h3 with h4 | h4
+          · simp at h4
+          · simp [h4]
+        · subst h3
+          exact ⟨w1.name, by simp⟩
+    · simp only [hc, Bool.false_eq_true, ite_false, List.append_nil] at h ⊢
+      split at h
+      · cases h
+      · rename_i hd
+        have hd0 : s.dollarCount = 0 := by omega
+        injection h with h
+        injection h with h1 h2
+        subst h1 h2
+        refine ⟨by rw [r1]; simp, ?_, v1, ?_⟩
+        · rw [n1]
+          simp [RState.pend, hd0, w1.zero hd0]
+        · intro e he
+          refine ⟨w1.substs e he, ?_⟩
+          rcases b1 e he with h4 | h4
+          · simp at h4
+          · exact h4
 
 end RF.MacroFmt
